@@ -212,6 +212,17 @@ func c18GenSchemaX(r *core.Rng, rich bool) (*yang.Stmt, *snode) {
 							}
 						}
 					}
+					// a leaf inside a case: the schema node identifier names the choice and the case
+					// (marked with '~' here: they have no data node)
+					if k.kw == "choice" {
+						for _, cse := range k.kids {
+							for _, kk := range cse.kids {
+								if kk.kw == "leaf" && kk.typeName != "empty" {
+									cands = append(cands, "~"+k.name+"/~"+cse.name+"/"+kk.name)
+								}
+							}
+						}
+					}
 				}
 				if len(cands) > 0 && !rich && r.Chance(2, 3) {
 					n := 1
@@ -223,7 +234,7 @@ func c18GenSchemaX(r *core.Rng, rich bool) (*yang.Stmt, *snode) {
 					for _, pi := range perm[:n] {
 						u = append(u, cands[pi])
 					}
-					s.Add(yang.S("unique", strings.Join(u, " ")))
+					s.Add(yang.S("unique", strings.ReplaceAll(strings.Join(u, " "), "~", "")))
 					sn.uniques = append(sn.uniques, u)
 					// a second, independent unique set of the same arity over other leaves: equal values in
 					// different sets (ip of one entry = backup-ip of another) are no violation
@@ -232,7 +243,7 @@ func c18GenSchemaX(r *core.Rng, rich bool) (*yang.Stmt, *snode) {
 						for _, pi := range perm[n : 2*n] {
 							u2 = append(u2, cands[pi])
 						}
-						s.Add(yang.S("unique", strings.Join(u2, " ")))
+						s.Add(yang.S("unique", strings.ReplaceAll(strings.Join(u2, " "), "~", "")))
 						sn.uniques = append(sn.uniques, u2)
 					}
 				}
@@ -470,8 +481,19 @@ func c18GenKids(r *core.Rng, kids []*snode, fill int) []*dnode {
 	return out
 }
 
+// c18DataPath: the data path of a unique path (choice and case names, marked '~', have no data node).
+func c18DataPath(path string) []string {
+	var out []string
+	for _, p := range strings.Split(path, "/") {
+		if !strings.HasPrefix(p, "~") {
+			out = append(out, p)
+		}
+	}
+	return out
+}
+
 func removePath(e *dnode, path string) {
-	parts := strings.Split(path, "/")
+	parts := c18DataPath(path)
 	cur := e
 	for i, p := range parts {
 		if i == len(parts)-1 {
@@ -493,7 +515,7 @@ func removePath(e *dnode, path string) {
 
 func lookupPath(e *dnode, path string) (string, bool) {
 	cur := e
-	for _, p := range strings.Split(path, "/") {
+	for _, p := range c18DataPath(path) {
 		cur = cur.kid(p)
 		if cur == nil {
 			return "", false
